@@ -329,12 +329,29 @@ var genGroupSignTable = map[string]string{
 	"return true": "returnTrue",
 }
 
+var loadPartyTable = map[string]string{
+	"do p.partyLock.Lock(\"loadOrNewSignParty\")":                                                   "lock",
+	"stmt defer p.partyLock.Unlock(\"loadOrNewSignParty\")":                                         "deferUnlock",
+	"if p.partyManager[common.ToHex(keyBytes)]#1 {return p.partyManager[common.ToHex(keyBytes)]#0}": "routeToParty",
+	"if p.finishedParty.Contains(common.ToHex(keyBytes)) {return nil}":                              "dropFinished",
+	// the parking branch: append to the list under the key, no look at what is already parked
+	"if !isNew {stmt var msgs []model.ConsensusMessage; if !p.futureMessages.Get(common.ToHex(keyBytes))#1 {set msgs = make([]model.ConsensusMessage, 0)} else {{ msgs = msgsRaw.([]model.ConsensusMessage) }}; set msgs = append(msgs, msg); do p.futureMessages.Add(common.ToHex(keyBytes), msgs); return nil}": "parkAppend",
+}
+
+// createParty: the composite literal is long; recognised by its frame
+func isCreateParty(c string) bool {
+	return strings.HasPrefix(c, "if &SignParty{") && strings.Contains(c, ".Start() == nil {set p.partyManager[common.ToHex(keyBytes)] = &SignParty{") &&
+		strings.Contains(c, "; go{waitUntilDone}; return &SignParty{") && strings.HasSuffix(c, "else {{ p.logger.Errorf(\"fail to start party, %s\", err) return nil }}")
+}
+
 func steps(fd *ast.FuncDecl, table map[string]string, effects []string, dump bool) []string {
 	canonStmts := flatten(fd.Body, map[string]string{}, effects)
 	var out []string
 	for _, c := range canonStmts {
 		if n, ok := table[c]; ok {
 			out = append(out, n)
+		} else if fd.Name.Name == "loadOrNewSignParty" && isCreateParty(c) {
+			out = append(out, "createParty")
 		} else {
 			out = append(out, "unknown")
 			fmt.Fprintf(os.Stderr, "c15facts: unrecognised statement in %s: %s\n", fd.Name.Name, c)
@@ -518,6 +535,7 @@ func main() {
 	aw := steps(findFunc(piece, "groupSignGenerator", "AddWitnessSign"), addWitnessSignTable, nil, dump)
 	af := steps(findFunc(piece, "groupSignGenerator", "addWitnessForce"), addWitnessForceTable, nil, dump)
 	gg := steps(findFunc(piece, "groupSignGenerator", "genGroupSign"), genGroupSignTable, nil, dump)
+	lp := steps(findFunc(filepath.Join(dir, "processor_party.go"), "Processor", "loadOrNewSignParty"), loadPartyTable, nil, dump)
 	binds := false
 	for _, s := range up {
 		if s == "bindHash" {
@@ -543,6 +561,8 @@ func main() {
 	fmt.Printf("def addWitnessSignSteps : List GStep := %s\n\n", leanList(aw))
 	fmt.Printf("def addWitnessForceSteps : List GStep := %s\n\n", leanList(af))
 	fmt.Printf("def genGroupSignSteps : List GStep := %s\n\n", leanList(gg))
+	fmt.Println("/-- `Processor.loadOrNewSignParty` (routing, parking of messages that have no party yet, party creation) -/")
+	fmt.Printf("def loadPartySteps : List PStep := %s\n\n", leanList(lp))
 	fmt.Println("/-- `SignInfo.VerifySign` -/")
 	fmt.Printf("def verifySignSteps : List VStep := %s\n\n", leanList(vs))
 	srcRoot := filepath.Join(dir, "..", "..")
